@@ -289,7 +289,7 @@ PROMO_CMP = CMP + """proof {
         }""" % {'LO': LO, 'FR': FR}
 
 GMFP_INV = [
-    '__i <= moves@.len()',
+    '__i <= moves@.len()', '@C01| move_generation_mode == MoveGenerationMode::AllMoves', '@C13| move_generation_mode == MoveGenerationMode::CapturesOnly',
     'gen_pre(board, piece, square_cords)', 'piece == (Piece { color, kind })',
     'forall|i: int| 0 <= i < moves@.len() ==> target_ok(board, square_cords.0 as int, square_cords.1 as int, #[trigger] moves@[i])',
     'new_moves@.len() >= old(new_moves)@.len()',
@@ -306,7 +306,9 @@ GMFP_INV = [
 ]
 GMFP = {
     'body_start': 'broadcast use axiom_boardstate_clone;',
-    'requires': ['gen_pre(board, piece, square_cords)', KEY + 'key_ok(board, zobrist_hasher)'],
+    # C01 is the statement about full generation, C13 about capture-only generation; C02 / C05 cover every generated move,
+    # so their runs keep the mode symbolic
+    'requires': ['gen_pre(board, piece, square_cords)', KEY + 'key_ok(board, zobrist_hasher)', '@C01| move_generation_mode == MoveGenerationMode::AllMoves', '@C13| move_generation_mode == MoveGenerationMode::CapturesOnly'],
     'ensures': [
         'final(new_moves)@.len() >= old(new_moves)@.len()',
         'forall|i: int| 0 <= i < old(new_moves)@.len() ==> final(new_moves)@[i] == old(new_moves)@[i]',
